@@ -155,6 +155,20 @@ def getFrag (j : Json) : Except String FragObs := do
            optBool c "seq", ← (← c.getObjVal? "rhs").getStr?⟩ : ColObs)
   pure ⟨root, loops, cols⟩
 
+/-- the element of the event collection `Things` of class `T0`: given explicitly, or derived by the
+model from the backend and the declared `element_pointer` -/
+def getRootElem (j : Json) : Except String FaxVerif.C10.Term := do
+  match j.getObjVal? "rootElem" with
+  | .ok t => getTerm t
+  | .error _ =>
+    let b ← (← j.getObjVal? "backend").getStr?
+    let backend ← if b == "atlas" then pure Backend.atlas else if b == "cms_aod" then pure Backend.cmsAod
+      else if b == "cms_miniaod" then pure Backend.cmsMiniaod else throw s!"unknown backend {b}"
+    let ep : Option Bool := match j.getObjVal? "element_pointer" with
+      | .ok (.bool x) => some x
+      | _ => none
+    pure { name := "T0", depth := rootElemDepth backend ep }
+
 def handleOp (op : String) (j : Json) : Except String Json := do
   if op == "parse" then
     let s ← (← j.getObjVal? "s").getStr?
@@ -227,7 +241,7 @@ def handleOp (op : String) (j : Json) : Except String Json := do
     match processMds (← getMds j) [] with
     | .error e => pure (Json.mkObj [("err", errS e)])
     | .ok reg =>
-      let rootElem ← getTerm (← j.getObjVal? "rootElem")
+      let rootElem ← getRootElem j
       let cols ← (← j.getObjVal? "cols").getArr?
       let outs ← cols.toList.mapM fun c => do
         let steps ← (← (← c.getObjVal? "steps").getArr?).toList.mapM getStep
@@ -245,7 +259,7 @@ def handleOp (op : String) (j : Json) : Except String Json := do
     match processMds (← getMds j) [] with
     | .error e => pure (Json.mkObj [("holds", false), ("why", s!"the declarations are refused: {errS e}")])
     | .ok reg =>
-      let rootElem ← getTerm (← j.getObjVal? "rootElem")
+      let rootElem ← getRootElem j
       let rootColl ← (← j.getObjVal? "rootColl").getStr?
       let warned ← getPairs (← j.getObjVal? "warned")
       let D : Decls := { reg, rootColl, rootElem := ctOf rootElem, enums := enumTable st, warned }
